@@ -89,6 +89,11 @@ func (p *TriggerPool) sendJobsForExecution(numJobs int) {
 	p.jobsAvailableCond.L.Lock()
 
 	jobsDiscarded := p.jobsToExecute.set(numJobs)
+	// jobs that can't start only because the max iterations limit has been reached
+	// are discarded silently, they are not dropped iterations
+	if p.manager.MaxIterationsReached() {
+		jobsDiscarded = 0
+	}
 	p.jobsAvailableCond.Broadcast()
 
 	p.jobsAvailableCond.L.Unlock()
